@@ -169,8 +169,10 @@ func c14Run(r *Run, depth, shard int) {
 						r.Distinct(fmt.Sprintf("%s|%s|%v|%s", flags, pb.name, plan, o.Class()))
 					}
 					switch {
-					case o.Panicked && strings.Contains(o.PanicVal, "injected dependency panic"):
-						// a panicking dependency aborts the transaction (baseapp recovers and rolls back)
+					case o.Panicked && (strings.Contains(o.PanicVal, "injected dependency panic") || panicInjected(o.Deps)):
+						// a panicking dependency aborts the transaction (baseapp recovers and rolls back) -- also when the
+						// handler's own deferred code panics again while the injected panic unwinds: what C14 states
+						// is that nothing of the transaction survives, not which panic value reaches baseapp
 						r.Class("fault-surfaced")
 						if HashBytes(post) != HashBytes(n.Dump) {
 							r.Violate("C14 failed transaction left effects behind: "+pb.name, fmt.Sprintf("%s: %v", a.Desc, DiffDumps(n.Dump, post)), rp("", ""))
@@ -285,4 +287,14 @@ func c14Late(p Pred) bool {
 		}
 	}
 	return n > 0
+}
+
+// panicInjected: did one of the recorded dependency calls panic by injection?
+func panicInjected(deps []DepCall) bool {
+	for _, d := range deps {
+		if d.Err == "panic" {
+			return true
+		}
+	}
+	return false
 }
